@@ -25,7 +25,8 @@ META = {
                     f"2x2 structured triangle grid (thorough also 3x2 Cartesian, sampled) displaced "
                     f"by symbolic (dx, dy) in [-{PERT}, {PERT}]^2 (cells stay convex and positively oriented)",
                     "the same two grids with the node order of every third face reversed (not consistently oriented: fallback branch "
-                    "for convex cells), 1 (thorough: up to 3) displaced nodes", "1-d: 3 (thorough: 3-5) cells, all interior and end nodes symbolic, increasing with spacing >= 2^-30 (cells of any practical length, in particular much shorter than 1e-3), total length >= 1/4, on the x-axis"],
+                    "for convex cells), 1 (thorough: up to 3) displaced nodes", "3x3 structured triangulation built from cell-node lists with one interior triangle listed clockwise (8 triangles x 3 "
+                    "cyclic listings), one displaced interior node", "1-d: 3 (thorough: 3-5) cells, all interior and end nodes symbolic, increasing with spacing >= 2^-30 (cells of any practical length, in particular much shorter than 1e-3), total length >= 1/4, on the x-axis"],
     "stubs": ["np.sqrt(x): |t| when x is syntactically t*t, otherwise fresh r >= 0 with r*r == x"],
     "outside": ["3-d grids (_compute_geometry_3d: sub-face areas are square roots that enter the face centroids "
                 "rationally; z3 did not decide the resulting queries)", "grids embedded in a tilted plane / line (C20)",
@@ -55,7 +56,29 @@ def _grid(kind):
         g.face_nodes = sps_.csc_matrix((np.ones(idx.size, dtype=bool), idx.ravel("F"), np.arange(0, idx.size + 1, 2)),
                                        shape=(g.num_nodes, g.num_faces))
         return g
+    if kind.startswith("tricw"):
+        # 3x3 structured triangulation given by its cell-node lists, with ONE interior triangle listed
+        # clockwise (kind = "tricw:<cell>:<cyclic shift>"): locally inconsistent, boundary loop consistent
+        _, cell, rot = kind.split(":")
+        cell, rot = int(cell), int(rot)
+        nx = 3
+        x = np.arange(nx + 1, dtype=float)
+        xx, yy = np.meshgrid(x, x)
+        pnts = np.vstack((xx.ravel(), yy.ravel(), np.zeros(xx.size)))
+        tri = []
+        for j in range(nx):
+            for i in range(nx):
+                n1 = j * (nx + 1) + i
+                n2, n3, n4 = n1 + 1, n1 + 1 + nx + 1, n1 + nx + 1
+                tri += [[n1, n2, n3], [n1, n3, n4]]
+        tri = np.array(tri).T
+        cw = tri[::-1, cell]
+        tri[:, cell] = np.roll(cw, rot)
+        return pp.TriangleGrid(pnts, tri=tri)
     raise ValueError(kind)
+
+
+_TRICW_INTERIOR = (3, 5, 6, 8, 9, 11, 12, 14)      # triangles of the 3x3 triangulation without a boundary edge
 
 
 def shards(tier, seed):
@@ -79,6 +102,9 @@ def shards(tier, seed):
     for kind in ("cartflip", "triflip"):
         for ns in ([[4], [0]] if tier == "quick" else [[4], [0], [1], [4, 5], [3, 4, 7]]):
             out.append({"dim": 2, "kind": kind, "nodes": ns})
+    for cell in _TRICW_INTERIOR:
+        for rot in range(3):
+            out.append({"dim": 2, "kind": f"tricw:{cell}:{rot}", "nodes": [5] if (cell + rot) % 2 == 0 else [10]})
     for n in ((3,) if tier == "quick" else (3, 4, 5)):
         out.append({"dim": 1, "n": n})
     return out
